@@ -22,11 +22,17 @@ class Deadlock(RuntimeError):
     pass
 
 
+class Livelock(RuntimeError):
+    pass
+
+
 class VirtualTimeLoop(asyncio.SelectorEventLoop):
     def __init__(self, start_ns: int = 0, real_io: bool = False):
         super().__init__()
         self._vt_ns = start_ns
         self.jumps = 0
+        self._spins = 0
+        self.max_spins = 400_000
         self._real_select = self._selector.select
         self._real_io = real_io
         self._selector.select = self._vselect  # type: ignore[method-assign]
@@ -37,6 +43,14 @@ class VirtualTimeLoop(asyncio.SelectorEventLoop):
             events = self._real_select(0)
             if events:
                 return events
+        if timeout is not None and timeout <= 0:
+            # ready callbacks exist: the loop spins without the clock advancing. A coroutine that never sleeps would
+            # freeze virtual time forever; abort the scenario instead (the caller reports it as inconclusive).
+            self._spins += 1
+            if self._spins > self.max_spins:
+                raise Livelock(f"virtual loop made {self._spins} iterations without the clock advancing")
+        else:
+            self._spins = 0
         if timeout is None:
             if self._real_io:
                 return self._real_select(0.001)
